@@ -7,7 +7,7 @@ PROPS = {
                       "byte/word helpers equal the paper's G/round/permutation definition for all arguments",
         "level_note": "trusted: Verus+z3, extraction rules, std intrinsics (rotate_right, from/to_le_bytes), SIMD "
                       "kernels assumed (C05)",
-        "units": {"quick": [v("compress")], "thorough": []},
+        "units": {"quick": [v("chunk")], "thorough": []},
         "explanation": "Verus discharges, for all inputs, the postconditions that tie the real (mechanically "
                        "extracted) functions of src/lib.rs, src/portable.rs, src/platform.rs, src/hazmat.rs to a "
                        "BLAKE3 specification written as spec functions from the paper; every arithmetic operation, "
